@@ -3,7 +3,7 @@ NOT_BUILT_REASON = {}
 META = {
  "C17": dict(
   design_ref="DESIGN.md §5 C17",
-  technique="exhaustive token enumeration + rapid differential vs strconv/encoding/hex/math/big + native go fuzz (thorough)",
+  technique="exhaustive token enumeration + exhaustive single-byte substitution/insertion (256 values x every position) + rapid differential vs strconv/encoding/hex/math/big + native go fuzz (thorough)",
   text="Exhaustive over all 299 593 JSON tokens of length 0..6 on a hostile alphabet for no-panic/accept/reject, and generated search (tens of thousands to millions of cases) for value exactness of quantities in every spelling, byte strings up to 8 KiB decoded into reused destinations, and big-endian round trips for every pad width; absence beyond the explored inputs is not established.",
   note="Reference codecs are Go's strconv, encoding/hex and math/big. 'Valid quantity' = 0x + 1..16 hex digits (longer spellings that still fit in 64 bits must be exact or rejected).",
  ),
@@ -15,13 +15,13 @@ META = {
  ),
  "C10": dict(
   design_ref="DESIGN.md §5 C10",
-  technique="rapid structured mutation of valid encodings at known offset/length words + per-declaration exhaustive truncation; sub-slice/row-bound/allocation oracle; go native fuzz (thorough)",
+  technique="rapid structured mutation of valid encodings at known offset/length words + per-declaration exhaustive truncation, zero-fill of every length and zeroed tails (also exhaustively over a fixed declaration table); sub-slice/row-bound/allocation oracle; go native fuzz (thorough)",
   text="For generated declarations every prefix and every boundary word at every offset/length position of a valid encoding is tried (AllTruncations), plus a large random mutation search; the oracle checks panic-freedom, sub-range results, row and allocation bounds, and that the decoder instance is not corrupted.",
   note="Input slices have cap==len so an over-read within spare capacity cannot hide. Promptness is judged by row/allocation bounds, not by time.",
  ),
  "C13": dict(
   design_ref="DESIGN.md §5 C13",
-  technique="rapid differential vs canonical-signature builder + stand-alone Keccak-256; decoy-log gate oracle through Integration.Insert",
+  technique="rapid differential vs canonical-signature builder + stand-alone Keccak-256; decoy-log gate oracle through Integration.Insert; several integrations built before use (held hashes, second build from one declaration); round trip of stored integrations through the fake Postgres",
   text="Generated search: the signature string and hash of every generated declaration are compared with an independent construction, Keccak is cross-checked against a from-scratch implementation and mainnet vectors, and blocks of matching/decoy logs must yield rows exactly for the logs passing the hash+topic-count gate.",
   note="Trusted: refmodel.Keccak256 (validated against five mainnet topics and the empty-string digest), refmodel canonical signature.",
  ),
@@ -51,7 +51,7 @@ META = {
  ),
  "C04": dict(
   design_ref="DESIGN.md §4, §5 C04",
-  technique="rapid model-based state machine with shared tables/sources/clients; frame condition on fakepg commit records + per-pair projection equality",
+  technique="rapid model-based state machine with shared tables/sources/clients (frame condition on fakepg commit records, anchor check, per-pair projection equality) + rapid concurrent unit: one goroutine per pair against a growing chain, final-state oracle",
   text="Generated search over sharing configurations and interleavings (steps, reorg deletions, restarts); every commit is attributed to the stepping pair and must touch only that pair's stamps, and each pair's rows must equal its own projection at quiescence.",
   note="Trusted: fakepg commit records (rows added/removed per commit with their stamps), sim node, projection model.",
  ),
@@ -87,7 +87,7 @@ META = {
  ),
  "C07": dict(
   design_ref="DESIGN.md §5 C07",
-  technique="exhaustive single-corruption enumeration (operator x request x position) over every data plan + rapid combined corruptions; oracle judged against the responses as served; native fuzz over operator/position bytes (thorough)",
+  technique="exhaustive single-corruption enumeration (operator incl. lagging replica x request x position) over every data plan + rapid combined corruptions; oracle judged against the responses as served; native fuzz over operator/position bytes (thorough)",
   text="All single corruptions from the property's list are enumerated for small ranges on all eleven data plans, combinations are sampled; the oracle decides from the served (post-corruption) responses whether an error is mandatory and otherwise checks numbering, linkage and the exact attachment relation.",
   note="Trusted: the harness's own parsing of the served JSON, sim node rendering. Client built with the 'nocache' URL switch so every call reaches the script.",
  ),
@@ -105,13 +105,13 @@ META = {
  ),
  "C15": dict(
   design_ref="DESIGN.md §5 C15",
-  technique="per-configuration exhaustive replacement of every string position by marker-carrying hostile strings; oracle on every SQL text the fake Postgres receives (marker search + statement-shape whitelist) and on the validation verdict",
+  technique="per-configuration exhaustive replacement of every string position by marker-carrying hostile strings; oracle on every SQL text the fake Postgres receives (marker search + statement-shape whitelist) and on the validation verdict; stored dashboard submissions are loaded back and run; rapid differential of the identifier check against its documented rule",
   text="For each generated configuration every string position (about 90) is attacked in turn with hostile strings and the complete life cycle is run when validation accepts; the fake server records every SQL text, so a spliced value is observed directly. Dashboard submissions are attacked the same way.",
   note="Trusted: fakepg's statement whitelist (anything else is 'unrecognised SQL') and raw SQL text log.",
  ),
  "C20": dict(
   design_ref="DESIGN.md §5 C20",
-  technique="rapid generated file/database configuration mixes and restart timings against the real Manager in process; task-set model + overlap analysis of the fake Postgres event log",
+  technique="rapid generated file/database configuration mixes and restart timings against the real Manager in process; task-set model + overlap analysis of the fake Postgres event log + per-source node traffic",
   text="Generated search over configuration mixes and restart timings (gate-controlled steps, concurrent restarts); the loaded task set is compared with an independent model through an observation hook, and runner exclusivity is decided from the transaction events seen by the fake Postgres.",
   note="Hook: shovel/verif_hooks.go (build tag verif) exposes the loaded task list. Liveness clauses are checked with bounded waits.",
  ),
